@@ -269,8 +269,9 @@ pub fn run_record(id: &str, cfg: &Cfg, pcm: &Pcm, mode: &str, src: &str, with_or
             if olog.is_empty() {
                 olog.push('-');
             }
+            let olog = if with_oracle_log { format!(" olog={olog}") } else { String::new() };
             format!(
-                "{head} impl=ok impl_verify={} impl_count={} impl_bytes={} olog={olog} o_c01={o1} o_c03={o3} o_c04={o4} o_c09={o9}",
+                "{head} impl=ok impl_verify={} impl_count={} impl_bytes={}{olog} o_c01={o1} o_c03={o3} o_c04={o4} o_c09={o9}",
                 verify_ok as u8, count, hex(&bytes)
             )
         }
@@ -284,7 +285,7 @@ pub fn generate(seed: u64, cases: usize, max_samples: usize, focus: &str, out: &
         let mut c = Cfg::default();
         c.block_size = 64;
         let p = gen::pcm(&mut rng, "sine_noise", 1, 16, 44100, 69);
-        out(run_record("corpus-f1", &c, &p, "st", "mem", false));
+        out(run_record("corpus-f1", &c, &p, "st", "mem", true));
         let p0 = gen::pcm(&mut rng, "silence", 2, 16, 44100, 0);
         out(run_record("corpus-f9-empty", &c, &p0, "st", "mem", false));
         out(run_record("corpus-f9-empty-mt", &c, &p0, "mt:2", "mem", false));
@@ -298,7 +299,7 @@ pub fn generate(seed: u64, cases: usize, max_samples: usize, focus: &str, out: &
             *x = r2.range(-(1 << 23), (1 << 23) - 1) as i32;
         }
         let p3 = Pcm { channels: 1, bps: 24, rate: 44100, data: d, family: "loud_silent_mix" };
-        out(run_record("corpus-f3a", &c3, &p3, "st", "mem", false));
+        out(run_record("corpus-f3a", &c3, &p3, "st", "mem", true));
         // F3b: alternating +-full-scale 24-bit stereo with r = -l, BitCount, no LPC
         let mut c4 = c3.clone();
         c4.order_sel_bitcount = true;
@@ -309,14 +310,14 @@ pub fn generate(seed: u64, cases: usize, max_samples: usize, focus: &str, out: &
             d.push((-(l as i64)).clamp(-(1 << 23), (1 << 23) - 1) as i32);
         }
         let p4 = Pcm { channels: 2, bps: 24, rate: 44100, data: d, family: "anti_stereo" };
-        out(run_record("corpus-f3b", &c4, &p4, "st", "mem", false));
+        out(run_record("corpus-f3b", &c4, &p4, "st", "mem", true));
         // F4: sine*8000 + noise +-256, max_parameter = 0
         let mut c5 = Cfg::default();
         c5.max_parameter = 0;
         let mut r3 = Rng::new(5);
         let d: Vec<i32> = (0..4096).map(|t| ((t as f64 * 0.05).sin() * 8000.0) as i32 + r3.range(-256, 256) as i32).collect();
         let p5 = Pcm { channels: 1, bps: 16, rate: 44100, data: d, family: "sine_noise" };
-        out(run_record("corpus-f4", &c5, &p5, "st", "mem", false));
+        out(run_record("corpus-f4", &c5, &p5, "st", "mem", true));
     }
     for i in 0..cases {
         let mut cfg = gen::random_valid_cfg(&mut rng);
